@@ -807,7 +807,7 @@ func (e *Env) syncCloneSet(k ObjKey) {
 	if len(pods) < replicas {
 		n := replicas - len(pods)
 		for i := 0; i < n; i++ {
-			if updated < target || updateRev == currentRev {
+			if updated < target {
 				mk(updateRev)
 				updated++
 			} else {
@@ -840,7 +840,7 @@ func (e *Env) syncCloneSet(k ObjKey) {
 			pods = e.podsOwnedBy(cs.Namespace, cs.UID)
 		}
 		acted = extra > 0
-	} else if !us.Paused && updated < target && updateRev != currentRev {
+	} else if !us.Paused && updated < target {
 		// rolling update, recreate style: replace one or more old pods
 		budget := maxUnavail - notReady
 		if maxSurge > 0 && len(pods) < replicas+maxSurge {
